@@ -8,9 +8,31 @@ A CASE is JSON:
    "bodies": {"<label>": [op, ...]}, calls made by the loop thread inside action <label>
    "ticks": [d, ...]}                the clock thread: k-th step advances the clock by d us
   op = ["now", a] | ["rel", d_us, a] | ["abs", t_us, a] | ["cancel", a] | ["dispose"]
+     | ["periodic", p_us, a] | ["sleep", d_us]                (oracle-only extensions, see below)
+
+Optional fields (all oracle-only except "repr" and "body_sched", which do not change the meaning of a case):
+   "repr": "td" | "float"            how due times are handed to the scheduler: timedelta / datetime (default) or
+                                     float seconds (relative: d_us / 1e6; absolute: POSIX timestamp of the instant)
+   "body_sched": "outer" | "arg"     calls made inside an action go to the scheduler under test (default) or to the
+                                     `scheduler` ARGUMENT the action was handed (the same object for an
+                                     EventLoopScheduler; the inner one-shot EventLoopScheduler for NewThread/ThreadPool)
+   "raises": [a, ...]                action a raises ActionError after its body instead of returning
+   "pspec": {"<a>": {...}}           the periodic subscription made by ["periodic", p_us, a]:
+        "fn", "st0"                  state transformer (ntpdrv.FNS) and initial state
+        "as": "timedelta" | "float"  representation of the period
+        "via": "direct" | "interval_factory" | "interval_subscribe"
+                                     sch.schedule_periodic(period, tick, st0)  |  reactivex.interval(period, scheduler=sch)
+                                     .subscribe(tick)  |  reactivex.interval(period).subscribe(tick, scheduler=sch)
+        "max": n                     tick n-1 (and every later one) disposes the returned disposable from inside
+        "raise_at": k | None         tick k raises ActionError
+        "durs": [d_us, ...]          tick k takes durs[k % len] us of clock time (a controlled sleep inside the tick)
+        "bodies": {"<k>": [op, ...]} calls made inside tick k
+   ["sleep", d_us] parks the calling thread until the controlled clock advanced by d_us.
 
 Log entries are (tid, clock_us, kind, label) with kind in
   call ret raise cancelcall cancelret disposecall disposeret check0 check1 start end spawn exit s0 lock
+  araise (action a raised)   pstart a k state-id | pend a k returned-state-id | praise a k  (tick k of periodic a)
+  pdisp a (a dispose() of the disposable returned for periodic a has returned)   thread-died
 (`call`, `cancelcall`, `disposecall`, `s0`, `lock` are harness-side markers used by the oracle only;
  `check0/1` is the result of item.is_cancelled() observed by wrapping that method; `lock` = a thread entered
  `with self._condition:` of an EventLoopScheduler -- made by a loop thread outside any action it is the
@@ -30,6 +52,7 @@ lib.import_repo()
 import reactivex.scheduler.eventloopscheduler as ELM  # noqa: E402
 import reactivex.scheduler.scheduleditem as SIM  # noqa: E402
 from reactivex.internal.exceptions import DisposedException  # noqa: E402
+from ntpdrv import FNS as PFNS, sid  # noqa: E402   (pure state transformers of periodic actions)
 
 EL_PATH = os.path.abspath(ELM.__file__)
 SHARED = ("_is_disposed", "_thread", "_ready_list", "_queue")
@@ -170,6 +193,10 @@ class Result:
     pass
 
 
+class ActionError(Exception):
+    """the scripted exception of a raising action / periodic tick"""
+
+
 def _install_check_hook(ctl_box):
     """wrap ScheduledItem.is_cancelled: log its result (harness-side observation of a call made by
     the loop thread; the method itself is untouched)"""
@@ -225,8 +252,20 @@ def run_case(case, chooser, fine=False, make_scheduler=None, extra_targets=None,
         disp = {}
         actions = {}
 
-        def do_op(op):
+        rep = case.get("repr", "td")
+        body_arg = case.get("body_sched", "outer") == "arg"
+        raises = set(case.get("raises", ()))
+        pspec = {int(k): v for k, v in case.get("pspec", {}).items()}
+
+        def rel_arg(d_us):
+            return timedelta(microseconds=d_us) if rep == "td" else d_us / 1e6
+
+        def abs_arg(t_us):
+            return clock.at(t_us) if rep == "td" else clock.at(t_us).timestamp()
+
+        def do_op(op, on=None):
             k = op[0]
+            tgt = sch if on is None else on
             if k in ("now", "rel", "abs"):
                 a = op[-1]
                 if op_entry_yield:
@@ -235,17 +274,28 @@ def run_case(case, chooser, fine=False, make_scheduler=None, extra_targets=None,
                 c.me().cur_call = a if k != "abs" else None
                 try:
                     if k == "now":
-                        d = sch.schedule(action_of(a))
+                        d = tgt.schedule(action_of(a))
                     elif k == "rel":
-                        d = sch.schedule_relative(timedelta(microseconds=op[1]), action_of(a))
+                        d = tgt.schedule_relative(rel_arg(op[1]), action_of(a))
                     else:
-                        d = sch.schedule_absolute(clock.at(op[1]), action_of(a))
+                        d = tgt.schedule_absolute(abs_arg(op[1]), action_of(a))
                     disp[a] = d
                     c.emit("ret", a)
                 except DisposedException:
                     c.emit("raise", a)
                 finally:
                     c.me().cur_call = None
+            elif k == "periodic":
+                a = op[2]
+                if op_entry_yield:
+                    c.yield_point("call")
+                c.emit("call", a)
+                try:
+                    d = start_periodic(tgt, a, op[1], pspec[a])
+                    disp[a] = d
+                    c.emit("ret", a)
+                except DisposedException:
+                    c.emit("raise", a)
             elif k == "cancel":
                 a = op[1]
                 c.yield_point("call")
@@ -253,11 +303,16 @@ def run_case(case, chooser, fine=False, make_scheduler=None, extra_targets=None,
                 d = disp.get(a)
                 if d is not None:
                     d.dispose()
+                    if a in pspec:
+                        c.emit("pdisp", a)
                 c.emit("cancelret", a)
             elif k == "dispose":
                 c.emit("disposecall", 0)
                 sch.dispose()
                 c.emit("disposeret", 0)
+            elif k == "sleep":
+                dl = clock.us + max(0, int(op[1]))
+                c.wait_until(lambda: False, dl, kind="sleep")
             else:
                 raise ValueError(op)
 
@@ -268,13 +323,64 @@ def run_case(case, chooser, fine=False, make_scheduler=None, extra_targets=None,
                         c.yield_point("call")
                     c.emit("start", a)
                     for op in bodies.get(a, []):
-                        do_op(op)
+                        do_op(op, scheduler if body_arg else None)
                     c.yield_point("call")
+                    if a in raises:
+                        c.emit("araise", a)
+                        raise ActionError(f"action {a}")
                     c.emit("end", a)
                     return None
                 action.label = a
                 actions[a] = action
             return actions[a]
+
+        def start_periodic(tgt, a, p_us, spec):
+            fn = PFNS[spec.get("fn", "count")]
+            cnt = [0]
+            tick_bodies = spec.get("bodies", {})
+            durs = spec.get("durs") or [0]
+            cap = int(spec.get("max", 3))
+
+            def tick(state):
+                k = cnt[0]
+                cnt[0] += 1
+                try:
+                    s_id = sid(state)
+                except ValueError:
+                    s_id = -7777777
+                # no yield point before this marker: its clock is the clock the scheduler read last before the call
+                c.emit("pstart", a, k, s_id)
+                c.yield_point("call")
+                d_us = int(durs[k % len(durs)])
+                if d_us > 0:
+                    c.wait_until(lambda: False, clock.us + d_us, kind="sleep")
+                for op in tick_bodies.get(str(k), []):
+                    do_op(op)
+                if k >= cap - 1 and disp.get(a) is not None:
+                    c.emit("cancelcall", a)
+                    disp[a].dispose()
+                    c.emit("pdisp", a)
+                    c.emit("cancelret", a)
+                c.yield_point("call")
+                if spec.get("raise_at") == k:
+                    c.emit("praise", a, k)
+                    raise ActionError(f"tick {k} of periodic {a}")
+                try:
+                    ret = fn(state)
+                except (TypeError, KeyError):      # a state the transformer is not defined on (wrong threading)
+                    ret = None
+                c.emit("pend", a, k, sid(ret))
+                return ret
+            period = timedelta(microseconds=p_us) if spec.get("as", "timedelta") == "timedelta" else p_us / 1e6
+            via = spec.get("via", "direct")
+            if via == "direct":
+                return tgt.schedule_periodic(period, tick, spec.get("st0", 0))
+            import reactivex
+            if via == "interval_factory":
+                return reactivex.interval(period, scheduler=tgt).subscribe(lambda v: tick(v))
+            if via == "interval_subscribe":
+                return reactivex.interval(period).subscribe(lambda v: tick(v), scheduler=tgt)
+            raise ValueError(via)
 
         real_now = clock.now
 
@@ -386,6 +492,8 @@ def g_case(case, r):
     mv = []
     for m in r.moves:
         if m[0] == "tick":
+            if m[1] > 10_000_000:
+                raise ValueError("Core/EventLoop.v counts clock steps in unary nat: no long delays in C31 model cases")
             mv.append(f"MTick {m[1]}%nat")
         else:
             mv.append(f"MStep {model_tid(r, m[1])}%nat")
@@ -474,6 +582,14 @@ def window_signature(log, a, i_check, i_start, i_cc):
     return f"{WINDOW_SIG}|{what}|{who}", started, open_
 
 
+def all_ops(case):
+    """every op of the case: programs, action bodies, bodies of periodic ticks"""
+    out = [op for p in case["progs"] for op in p] + [op for b in case.get("bodies", {}).values() for op in b]
+    for sp in case.get("pspec", {}).values():
+        out += [op for b in sp.get("bodies", {}).values() for op in b]
+    return out
+
+
 def oracle(case, r, single_loop_thread=True):
     """-> list of (signature, message)"""
     bad = []
@@ -488,17 +604,30 @@ def oracle(case, r, single_loop_thread=True):
     if r.error:
         bad.append(("C31 controller-error|" + r.error.split("(")[0], r.error))
         return bad
-    for e in log:
-        if e[2] == "thread-died":
-            bad.append((f"C31 thread-died|{e[3]}", f"thread {e[0]} died: {e[3:]}"))
     spawned = [e[4] for e in log if e[2] == "spawn"]
     progs = set(range(r.nprogs))
+    pspec = {int(k): v for k, v in case.get("pspec", {}).items()}
+    # a thread that dies is a violation unless the statement is silent about it: (a) the scripted ActionError of a
+    # raising action / tick (coverage only: the text says nothing about raising actions on this scheduler), (b) the
+    # DisposedException raised INSIDE the loop thread by the re-scheduling call of a periodic tick once dispose() of
+    # the scheduler was called ("scheduling raises DisposedException")
+    raised = any(e[2] in ("araise", "praise") for e in log)
+    died = []
+    for i, e in enumerate(log):
+        if e[2] == "thread-died":
+            died.append(e[0])
+            if e[3] == "ActionError" and any(x[0] == e[0] and x[2] in ("araise", "praise") for x in log[:i]):
+                continue
+            if e[3] == "DisposedException" and pspec and e[0] in spawned \
+                    and any(x[2] == "disposecall" for x in log[:i]):
+                continue
+            bad.append((f"C31 thread-died|{e[3]}", f"thread {e[0]} died: {e[3:]}"))
     # 1. thread identity
     cur_loop = None
     for e in log:
         if e[2] == "spawn":
             cur_loop = e[4]
-        if e[2] in ("start", "end", "check0", "check1"):
+        if e[2] in ("start", "end", "check0", "check1", "araise", "pstart", "pend", "praise"):
             if e[0] in progs or e[0] not in spawned:
                 bad.append(("C31 action-on-foreign-thread|", f"{e[2]} of action {e[3]} on thread {e[0]}, "
                                                              f"loop threads {spawned}"))
@@ -510,12 +639,12 @@ def oracle(case, r, single_loop_thread=True):
     # 2. never two at once
     open_ = None
     for e in log:
-        if e[2] == "start":
+        if e[2] in ("start", "pstart"):
             if open_ is not None:
                 bad.append(("C31 overlap|", f"action {e[3]} started on thread {e[0]} while action {open_[3]} "
                                             f"runs on thread {open_[0]}"))
             open_ = e
-        elif e[2] == "end":
+        elif e[2] in ("end", "araise", "pend", "praise"):
             # an action's body may run nested only via the scheduler; the spy never nests
             open_ = None
     starts = [e for e in log if e[2] == "start"]
@@ -527,10 +656,13 @@ def oracle(case, r, single_loop_thread=True):
             bad.append(("C31 ran-twice|", f"action {a} started {n} times"))
     # due times, as requested, on the scheduler clock
     kind_of, due, s2clock = {}, {}, {}
-    allops = [op for p in case["progs"] for op in p] + [op for b in case.get("bodies", {}).values() for op in b]
+    allops = all_ops(case)
+    per_of = {}
     for op in allops:
         if op[0] in ("now", "rel", "abs"):
             kind_of[op[-1]] = op
+        elif op[0] == "periodic":
+            per_of[op[2]] = op
     for a, op in kind_of.items():
         if op[0] == "abs":
             due[a] = op[1]
@@ -584,14 +716,16 @@ def oracle(case, r, single_loop_thread=True):
     # 7. after dispose() returned: schedule raises, nothing scheduled afterwards runs
     i_disp = first("disposeret", 0)
     if i_disp is not None:
-        for a in kind_of:
+        for a in list(kind_of) + list(per_of):
             ic = first("call", a)
             if ic is not None and ic > i_disp:
+                what = "schedule_periodic" if a in per_of else "schedule"
                 if first("raise", a) is None:
-                    bad.append(("C31 no-DisposedException|", f"schedule of action {a} after dispose() returned "
-                                                             f"did not raise"))
-                if first("start", a) is not None:
-                    bad.append(("C31 ran-after-dispose|", f"action {a} scheduled after dispose() returned ran"))
+                    bad.append(("C31 no-DisposedException|" + ("periodic" if a in per_of else ""),
+                                f"{what} of action {a} after dispose() returned did not raise"))
+                if first("pstart" if a in per_of else "start", a) is not None:
+                    bad.append(("C31 ran-after-dispose|" + ("periodic" if a in per_of else ""),
+                                f"action {a} ({what}) scheduled after dispose() returned ran"))
     # 8. quiescence: nothing lost, threads where they should be
     stuck_other = [t for t in r.stuck if t not in spawned and t != r.clock_tid]
     if stuck_other:
@@ -601,20 +735,152 @@ def oracle(case, r, single_loop_thread=True):
             bad.append(("C31 deadlock|loop-thread", f"loop thread {t} blocked for ever outside Condition.wait"))
     has_dispose = any(op[0] == "dispose" for op in allops)
     cancelled_any = {op[1] for op in allops if op[0] == "cancel"}
-    if not has_dispose and not stuck_other:
+    if not has_dispose and not stuck_other and not raised:
         for a in s2clock:
             if a in cancelled_any:
                 continue
             if first("start", a) is None or first("end", a) is None:
                 bad.append(("C31 lost|", f"action {a} accepted (due {due.get(a)}), not cancelled, never ran; "
                                          f"final clock {r.final_clock}"))
-    nexit = sum(1 for e in log if e[2] == "exit")
-    if case.get("eie") and not stuck_other and nexit != len(spawned):
+    nexit = sum(1 for e in log if e[2] == "exit") + len(set(died))
+    if case.get("eie") and not stuck_other and not died and nexit != len(spawned):
         bad.append(("C31 exit_if_empty-thread-stays|", f"{len(spawned)} threads started, {nexit} exited"))
     if i_disp is not None and not stuck_other and nexit != len(spawned):
         # not part of the property: dispose() between the loop's two locked blocks loses its notification,
         # the loop thread then waits for ever (Props/C31.v: C31_ex_dispose_thread_sleeps)
         bad.append(("NOTE dispose-lost-wakeup", f"{len(spawned)} threads started, {nexit} exited"))
-    if not case.get("eie") and i_disp is None and spawned and nexit:
+    if not case.get("eie") and i_disp is None and spawned and nexit and not died:
         bad.append(("C31 thread-exited-without-exit_if_empty|", f"{nexit} exits"))
     return bad
+
+
+# --------------------------------------------------------------------------
+# oracle for ["periodic", p, a]: the statement of C35 (and, with full=False, only the clauses C31 / C34 make about
+# timed actions: not before the due time, not after a dispose() that preceded the due time) on the implementation's
+# log.  Never consults a model.
+# --------------------------------------------------------------------------
+
+def expected_states(spec, n):
+    """f^k(st0) for k < n, as ids"""
+    via = spec.get("via", "direct")
+    f = PFNS["count" if via != "direct" else spec.get("fn", "count")]
+    s = 0 if via != "direct" else spec.get("st0", 0)
+    out = []
+    for _ in range(n):
+        out.append(sid(s))
+        s = f(s)
+    return out
+
+
+def periodic_oracle(case, r, kind, pid="C35", full=True):
+    """-> [(signature, message)]; signatures start with `<pid> periodic|<kind>|`; the ones starting with "NOTE " are
+    observations outside the statement (the dispatch window).
+
+    Made precise for a real-time scheduler under the controlled clock, for every interleaving:
+      * tick k is handed f^k(st0) (interval: the value k)                                         [full]
+      * ticks of one subscription never overlap                                                     [full]
+      * the first tick starts no earlier than one period after the clock reading at the call, tick k+1 no earlier
+        than one period after the start of tick k (">=" only: how much later is scheduling latency)
+      * stops once the returned disposable is disposed: tick k+1 must not start if some dispose() of the returned
+        disposable had returned (i) before tick k ended, or (ii) at a clock reading before the earliest instant tick
+        k+1 may be due (start of tick k + period; call + period for the first) -- the reading C34 gives for one-shot
+        actions; and after a dispose() returned at most ONE more tick starts.  NOT demanded: that a dispose() from
+        another thread which returns when the tick is already due prevents it (best effort; counted as a NOTE)
+      * no tick after one raised                                                                     [full]
+      * schedule_periodic raises only on an EventLoopScheduler after dispose() was called, and then nothing ticks
+      * it keeps going: when nobody else stops it (no cancel op, no dispose() of the scheduler, no raising action)
+        the run ends with the subscription disposed by tick max-1 itself                            [full]"""
+    bad = []
+    log = r.log
+    if r.error:
+        return [(f"{pid} periodic|{kind}|controller-error", r.error)]
+    pspec = {int(k): v for k, v in case.get("pspec", {}).items()}
+    allops = all_ops(case)
+    raised_any = any(e[2] in ("araise", "praise") for e in log)
+    sched_dispose = any(op[0] == "dispose" for op in allops)
+    spawned = [e[4] for e in log if e[2] == "spawn"]
+    stuck_other = [t for t in r.stuck if t not in spawned and t != r.clock_tid]
+    for op in allops:
+        if op[0] != "periodic":
+            continue
+        p, a = int(op[1]), op[2]
+        spec = pspec[a]
+        sig = f"{pid} periodic|{kind}|"
+        i_call = next((i for i, e in enumerate(log) if e[2] == "call" and e[3] == a), None)
+        if i_call is None:
+            continue
+        c_call = log[i_call][1]
+        ticks = [(i, e[1], e[4], e[5]) for i, e in enumerate(log) if e[2] == "pstart" and e[3] == a]
+        ends = {e[4]: i for i, e in enumerate(log) if e[2] in ("pend", "praise") and e[3] == a}
+        i_raise = next((i for i, e in enumerate(log) if e[2] == "raise" and e[3] == a), None)
+        if i_raise is not None:
+            if not (kind == "eventloop" and any(e[2] == "disposecall" for e in log[:i_raise])):
+                bad.append((sig + "schedule_periodic-raised", "schedule_periodic raised DisposedException although "
+                                                              "dispose() of the scheduler had not been called"))
+            if ticks:
+                bad.append((sig + "ticked-although-schedule_periodic-raised", f"{len(ticks)} ticks"))
+            continue
+        if full:
+            exp = expected_states(spec, len(ticks))
+            for j, (i, clk, k, st) in enumerate(ticks):
+                if st != exp[j]:
+                    bad.append((sig + ("first-state-not-initial" if j == 0 else "state-not-threaded"),
+                                f"tick {j} of periodic {a} got state id {st}, expected {exp[j]} "
+                                f"(via {spec.get('via', 'direct')})"))
+                    break
+            for j in range(1, len(ticks)):
+                if ends.get(ticks[j - 1][2]) is None or ends[ticks[j - 1][2]] > ticks[j][0]:
+                    bad.append((sig + "ticks-overlap", f"tick {j} of periodic {a} started before tick {j - 1} ended"))
+            i_pr = next((i for i, e in enumerate(log) if e[2] == "praise" and e[3] == a), None)
+            if i_pr is not None and any(i > i_pr for i, _, _, _ in ticks):
+                bad.append((sig + "invoked-after-raise", f"a tick of periodic {a} started after one raised"))
+        # period
+        if ticks and ticks[0][1] < c_call + max(0, p):
+            bad.append((sig + "first-call-early", f"periodic {a} scheduled at {c_call} with period {p}: first tick "
+                                                  f"at {ticks[0][1]}"))
+        for j in range(len(ticks) - 1):
+            if ticks[j + 1][1] < ticks[j][1] + p:
+                bad.append((sig + "calls-closer-than-period", f"ticks {j}, {j + 1} of periodic {a} at {ticks[j][1]}, "
+                                                              f"{ticks[j + 1][1]}; period {p}"))
+        # stop
+        disps = [(i, e[1], e[0]) for i, e in enumerate(log) if e[2] == "pdisp" and e[3] == a]
+        after_first = 0
+        for j, (i, clk, k, st) in enumerate(ticks):
+            earliest = (c_call if j == 0 else ticks[j - 1][1]) + max(0, p)
+            i_prev_end = ends.get(ticks[j - 1][2]) if j >= 1 else None
+            verdict = None
+            for (i_d, c_d, who) in disps:
+                if i_d > i:
+                    break
+                if j >= 1 and i_prev_end is not None and i_d < i_prev_end:
+                    verdict = ("invoked-after-dispose|dispose-returned-before-previous-invocation-ended",
+                               f"tick {j} of periodic {a} started at {clk}; dispose() had returned (thread {who}, clock "
+                               f"{c_d}) before tick {j - 1} ended")
+                    break
+                if c_d < earliest:
+                    verdict = ("invoked-after-dispose|dispose-returned-before-the-tick-could-be-due",
+                               f"tick {j} of periodic {a} started at {clk}; dispose() had returned at clock {c_d} "
+                               f"(thread {who}), before the earliest due time {earliest} of that tick")
+                    break
+                verdict = ("NOTE window", "")
+            if verdict is not None:
+                if verdict[0] == "NOTE window":
+                    bad.append(("NOTE periodic-tick-started-after-a-dispose-that-returned-when-it-was-already-due", ""))
+                else:
+                    bad.append((sig + verdict[0], verdict[1]))
+            if disps and i > disps[0][0]:
+                after_first += 1
+        if after_first > 1:
+            bad.append((sig + "invoked-after-dispose|more-than-one-tick-after-dispose-returned",
+                        f"{after_first} ticks of periodic {a} started after dispose() had returned"))
+        # keeps going
+        foreign_cancel = any(o[0] == "cancel" and o[1] == a for o in allops)
+        if full and not foreign_cancel and not sched_dispose and not raised_any and not stuck_other \
+                and first_ret(log, a) is not None and not disps:
+            bad.append((sig + "stalled", f"periodic {a} (period {p}, max {spec.get('max', 3)}): {len(ticks)} ticks, "
+                                         f"final clock {r.final_clock}, never reached its last tick"))
+    return bad
+
+
+def first_ret(log, a):
+    return next((i for i, e in enumerate(log) if e[2] == "ret" and e[3] == a), None)
